@@ -21,6 +21,7 @@ class SubRun:
         for k, out in enumerate(case["out"]):
             self.tables.append(table_of(out["calls"]) if out.get("cls") == "exec" else {})
         # the tables of events not delivered yet are still needed: every event's table comes from `out` (terminal => all delivered)
+        self.falsy = [0, "", False, {}, []]
         self.avail = 0
         self.end = False
         self.wake = None
@@ -50,7 +51,8 @@ class SubRun:
             self.state.table = self.tables[k - 1] if k - 1 < len(self.tables) else {}
             self.state.calls = []
             self.cs_all.append(self.state.calls)
-            yield {"_id": "E%d" % k, "_typename": "Subscription"}
+            # every second event is a FALSY payload (it is still the event, and the root value of its execution)
+            yield ({"_id": "E%d" % k, "_typename": "Subscription"} if k % 2 else self.falsy[(k // 2) % len(self.falsy)])
 
     def _wake(self):
         if self.wake is not None and not self.wake.done():
@@ -129,9 +131,18 @@ class SubRun:
             cs = CaseState(table_of(exp["calls"]))
             cs.calls = calls
             cs.ctx = self.state.ctx
+            cs.root_id = "E%d" % (k + 1) if (k + 1) % 2 else self.world.ident(self.falsy[((k + 1) // 2) % len(self.falsy)])
             mm = execreplay.compare_faults(c, resp, cs, self.doc)
             mm += [m for m in execreplay.compare_calls(c, cs, exact=True) if "did not happen" in m] if not exp["errs"] else []
             out.extend("event %d: %s" % (k + 1, m) for m in mm)
+        # the source stream is started with the spec-coerced arguments of the root field (the same dictionary its resolver gets)
+        if not case["refused"] and case["out"] and case["out"][0]["cls"] == "exec":
+            root_calls = [c for c in case["out"][0]["calls"] if len(c["path"]) == 1]
+            if root_calls:
+                from execworld import args_py
+                want = args_py(root_calls[0]["args"])
+                if not render.strict_eq(dict(sorted(getattr(self, "source_args", {}).items())), dict(sorted(want.items()))):
+                    out.append("source stream started with arguments %r, expected %r" % (getattr(self, "source_args", None), want))
         if case["refused"] and self.source_started:
             out.append("source stream was started although the request was refused")
         if not case["refused"] and self.source_started != 1:
